@@ -180,6 +180,12 @@ pub struct Upload<'a> {
 
 /// Runs one upload and checks it against the statement of C11 / C05. Returns (problems, events).
 pub fn check_upload(table: &Table, up: &Upload) -> (Vec<String>, Vec<Ev>) {
+    check_upload_paused(table, up, None)
+}
+
+/// `pause`: the terminal pauses for so many (virtual) milliseconds once it has sent exactly so many
+/// bytes, wherever in a packet that is.
+pub fn check_upload_paused(table: &Table, up: &Upload, pause: Option<(usize, u64)>) -> (Vec<String>, Vec<Ev>) {
     let codec = Codec::new(table);
     let req_ty = table.get("feig::RequestForData");
     let mut incoming = ACK.to_vec();
@@ -200,6 +206,9 @@ pub fn check_upload(table: &Table, up: &Upload) -> (Vec<String>, Vec<Ev>) {
     let mut ctx = Ctx::new(vec![], vec![], 0);
     let sh: Sh = Rc::new(RefCell::new(std::mem::replace(&mut ctx, Ctx::new(vec![], vec![], 0))));
     let s = Scripted::new(sh, incoming, Chunking::Greedy);
+    if let Some((at, ms)) = pause {
+        s.st.borrow_mut().pause_at = Some((at, std::time::Duration::from_millis(ms)));
+    }
     let is_final = |v: &str| v == "CompletionData" || v == "Abort";
     let stop: Option<&dyn Fn(&str) -> bool> = if up.dropped { Some(&is_final) } else { None };
     let log = run_writefile(&up.dir.path, up.password, up.block, &s, stop);
@@ -721,6 +730,40 @@ pub fn run_c11(run: &RunInfo) -> Summary {
             }
         }
     });
+    // ---- a terminal that pauses: after every byte count of the reply stream (inside headers, length
+    //      bytes and bodies, and between packets) the terminal waits 4 s, 6 s or 61 s of virtual time
+    //      before it sends the rest; the upload must be exactly the one of the unpaused terminal
+    if !skip_for_replay(run, "c11/paused/") {
+        let d = make_dir(&root, 9_000, &[(0x11, 10), (0x23, 5)], false, run.seed);
+        let scripts: Vec<Vec<Req>> = vec![
+            vec![Req::Data { id: Some(0x11), offset: Some(0) }, Req::Data { id: Some(0x23), offset: Some(0) }, Req::Data { id: Some(0x11), offset: Some(4) }],
+            vec![Req::Data { id: Some(0x23), offset: Some(4) }],
+        ];
+        let codec = Codec::new(&table);
+        let a = par_for(scripts.len() * 2, |ix, acc| {
+            let (script, fin) = (&scripts[ix / 2], ix % 2 == 0);
+            let total: usize = 3 + script.iter().map(|r| codec.encode(table.get("feig::RequestForData"), &r.value()).expect("reference request").len()).sum::<usize>() + if fin { 3 } else { 4 };
+            for at in 0..total {
+                for ms in [4_000u64, 6_000, 61_000] {
+                    let up = Upload { dir: &d, seed: run.seed, block: 4, password: 123456, requests: script.clone(), finish: Some(fin), dropped: false };
+                    let (problems, events) = check_upload_paused(&table, &up, Some((at, ms)));
+                    acc.count("executions", 1);
+                    acc.count("paused_executions", 1);
+                    acc.count("transitions", (script.len() + 2) as u64);
+                    if !problems.is_empty() {
+                        let name: Vec<String> = script.iter().map(|r| r.label()).collect();
+                        acc.violation(viol(
+                            format!("c11/paused/script={}/{}/at={at}/ms={ms}", name.join(","), if fin { "completion" } else { "abort" }),
+                            format!("payload directory {:02x?}, block size 4, requests: {}; the terminal pauses for {ms} ms after {at} bytes of its replies\n{}\nevent log:\n{}", d.files, name.join(", "), problems.join("\n"), render_events(&events)),
+                            at as u64,
+                        ));
+                    }
+                }
+            }
+            acc.witness("the terminal paused inside and between packets");
+        });
+        acc.merge(a);
+    }
     // ---- whole-file uploads: the terminal fetches a file front to back (and two files alternately),
     //      which is what an update really does; includes files larger than any internal buffer
     {
@@ -806,7 +849,7 @@ pub fn run_c11(run: &RunInfo) -> Summary {
         transitions: acc.get("transitions"),
         traces_validated: execs,
         distinct_nontrivial: acc.set_len("outcomes"),
-        rule: format!("{} payload directories on disk (none, each of the 21 recognised paths alone, all pairs and triples over six representative paths, all 21 together incl. a 200 KiB file; each with and without unrelated files; file sizes 0,1,B-1,B,B+1,2B,2B+1) x block sizes {{1,2,3,8,255,256,1024,32768}} ({}) x all request scripts of length <= 2 (3 for small directories in thorough) over {{announced ids, a recognised-but-absent id, 0x77}} x offsets {{0,1,B-1,B,size-1,size,size+1,2^32-1}} + requests without id / offset / file container / TLV, ended by completion or abort; plus whole-file uploads (one file front to back, two files one after the other, two files alternately) for file sizes up to 200 KiB incl. 65535/65536/65537 and block sizes that do and do not divide 65536, and for every block size 1..=300 on a 613-byte file. File content is a function of (id, offset, seed). distinct_nontrivial = distinct (directory, block, script, ending) cases", cases.len(), if thorough { "all combinations" } else { "two block sizes per shape, rotating" }),
+        rule: format!("{} payload directories on disk (none, each of the 21 recognised paths alone, all pairs and triples over six representative paths, all 21 together incl. a 200 KiB file; each with and without unrelated files; file sizes 0,1,B-1,B,B+1,2B,2B+1) x block sizes {{1,2,3,8,255,256,1024,32768}} ({}) x all request scripts of length <= 2 (3 for small directories in thorough) over {{announced ids, a recognised-but-absent id, 0x77}} x offsets {{0,1,B-1,B,size-1,size,size+1,2^32-1}} + requests without id / offset / file container / TLV, ended by completion or abort; plus whole-file uploads (one file front to back, two files one after the other, two files alternately) for file sizes up to 200 KiB incl. 65535/65536/65537 and block sizes that do and do not divide 65536, and for every block size 1..=300 on a 613-byte file; plus two scripts x completion/abort against a terminal that pauses for 4 s, 6 s or 61 s of virtual time after every byte count of its replies (inside headers, length bytes, bodies and between packets). File content is a function of (id, offset, seed). distinct_nontrivial = distinct (directory, block, script, ending) cases", cases.len(), if thorough { "all combinations" } else { "two block sizes per shape, rotating" }),
         exhaustive: true,
         required_witnesses: vec![
             "valid requests were answered with the file's bytes".into(),
@@ -814,6 +857,7 @@ pub fn run_c11(run: &RunInfo) -> Summary {
             "all 21 recognised files announced".into(),
             "directory without recognised files rejected".into(),
             "whole files were uploaded front to back".into(),
+            "the terminal paused inside and between packets".into(),
         ],
         assumptions: vec!["the order of the announced file list is not specified (compared as a set)".into(), "file content depends on VERIF_SEED; the set of cases does not".into()],
         bounds: json!({"script_length": 2, "directories": cases.len()}),
